@@ -65,6 +65,12 @@ def _sub_vals(n):
             yield x
 
 
+# string-valued enumerations: shortening them only produces ill-formed cases
+_ENUM_KEYS = ('t', 'cls', 'api', 'style', 'mode', 'kind', 'fmt', 'container', 'op', 'lop', 'reg', 'type',
+              'handle', 'fault', 'fault_on', 'fault_cls', 'exc', 'spec_channel', 'target_channel', 'spec_format',
+              'item_kind', 'what', 'empty', 'hostile', 'sub', 'id', 'name')
+
+
 def _numkey(k):
     try:
         return (0, int(k))
@@ -126,7 +132,7 @@ def candidates(case, protect=('knobs', 'seed', 'prop', 'exc_pool')):
         if isinstance(node, int) and node not in (0, 1) and path[-1] not in ('n', 'pid'):
             yield _set(case, path, 0)
             yield _set(case, path, node // 2)
-        elif isinstance(node, str) and len(node) > 3 and path[-1] not in ('t', 'cls') \
+        elif isinstance(node, str) and len(node) > 3 and path[-1] not in _ENUM_KEYS \
                 and not (isinstance(path[-1], int) and path[-1] == 0):
             yield _set(case, path, node[:1])
 
